@@ -1,4 +1,4 @@
-"""C13 -- a long-lived project answers like a fresh one (clauses R13.1-R13.5)."""
+"""C13 -- a long-lived project answers like a fresh one (clauses R13.1-R13.7)."""
 from __future__ import annotations
 
 import ast
@@ -16,7 +16,7 @@ EXPLANATION = (
     "cache_observers.  R13.4: FilteredResourceObserver refreshes its change indicator after each reported event.  "
     "R13.5: a handler registered on a *raw* observer that indexes per file either handles folder events or "
     "invalidates wholesale.  R13.6: in the filtered observer every reported resource is the one that was tested "
-    "(guard/action agreement) and a move covers the parents of both ends.  Sufficiency of invalidation for every query is not decided."
+    "(guard/action agreement), no report is control-dependent on the failure of another resource's watched-test, and a move covers the parents of both ends.  R13.7 (=R09.7): every element entering the cached file listing is dominated by a negative is_ignored test of that element.  Sufficiency of invalidation for every query is not decided."
 )
 ASSUMPTIONS = ["required event sets per cache are a hand-confirmed table (sa/rules/c13.py REQUIRED) with reasons"]
 
@@ -322,6 +322,16 @@ def check(ctx, res) -> None:
                         any(isinstance(l, ast.For) and norm(l.target).replace("Store", "Load") == subj for l in in_loop)
                     what = f"{c.func.attr}({ast.unparse(a0)}) is guarded by a membership test on the same resource"
                     bad = f"{mname}: {c.func.attr}({ast.unparse(a0)}) is not guarded by a test that this very resource is watched"
+                # independence (general form): a report must not be control-dependent on the FAILURE of a watched-test of
+                # another resource (an `elif` chain): the file and its folder can both be watched, and both must be told
+                neg = [t for t, pol in gs if not pol and (
+                    (isinstance(t, ast.Compare) and len(t.ops) == 1 and isinstance(t.ops[0], ast.In) and norm(t.left) != norm(a0)) or
+                    (isinstance(t, ast.Call) and call_name(t) == "_is_parent_changed"))]
+                if ok and neg:
+                    ok = False
+                    bad = (f"{mname}: {c.func.attr}({ast.unparse(a0)}) is only reached when `{ast.unparse(neg[0])}` is false: when the other resource is "
+                           "watched too (a module and its package both are, once both were looked up) this one is never reported, and the cached "
+                           "package/module keeps answering from stale data")
                 res.add("R13.6", f"{mname}|{c.func.attr}({ast.unparse(a0)})", ok, f"{m.unit.rel}:{c.lineno}", what if ok else bad)
         if mname.endswith("_moved"):
             ps = [norm(ast.Name(id=p, ctx=ast.Load())) for p in param_names(m.node)[2:4]]
@@ -381,3 +391,8 @@ def check(ctx, res) -> None:
                         "moving or removing a package leaves its modules' names in the index",
                         function=hm.qualname)
     res.floor("R13.5", "raw per-file moved/removed handlers", n135, 4)
+
+    # ---- R13.7 (=R09.7) only unignored resources enter the cached file listing
+    from .common import file_list_filter_rule
+
+    file_list_filter_rule(ctx, res, "R13.7")
